@@ -3,6 +3,7 @@ import CoxeterVerif.Lemmas.Setters
 import CoxeterVerif.Lemmas.SettersEllip
 import CoxeterVerif.Lemmas.SettersSph
 import CoxeterVerif.Lemmas.SettersBalls
+import CoxeterVerif.Lemmas.SettersHeap
 /-!
   # C08 — size setters hit their target by pure similarity; bad targets are refused
 
@@ -760,3 +761,101 @@ example (core : CPState ℝ) (ball : SPHProp → SPHState ℝ → Except String 
   exact (Except.ok.inj h3).symm
 
 end
+
+
+/-!
+  ## A setter on one shape never changes another shape or an array of the caller
+
+  `Model/SettersHeap.lean`: arrays are objects in a heap; a world holds several shapes and the
+  caller's arrays; a mutator writes attributes in place or re-binds them to FRESH arrays (the only
+  vocabulary the setters of /repo use: `SettersHeap.pattern`, compared with the live objects'
+  buffers on every assignment by the harness).
+-/
+section heap
+open SettersHeap
+variable {α : Type}
+
+/-- **isolation**: when no two shapes and no shape and the caller share an array, any setter of
+shape `i` leaves every other shape's arrays (addresses and contents) and every caller array
+(ownership and contents) exactly as they were -/
+theorem setter_isolated {w : World α} (hs : Sep w) (i : Nat) (effs : List (Eff α)) :
+    (∀ j, j ≠ i → (w.step i effs).objs[j]? = w.objs[j]? ∧ (w.step i effs).view j = w.view j) ∧
+    (w.step i effs).caller = w.caller ∧
+    (∀ a ∈ w.caller, C16.Heap.get (w.step i effs).heap a = C16.Heap.get w.heap a) :=
+  step_isolated hs i effs
+
+/-- **the separation is an invariant** of every setter and of the caller allocating arrays -/
+theorem setter_keeps_separation {w : World α} (hs : Sep w) (evs : List (Ev α)) : Sep (run w evs) :=
+  run_sep hs evs
+
+/-- **histories**: a shape no setter of the history addresses is bit-identical at the end, whatever
+was done to the other shapes and whatever the caller allocated in between -/
+theorem untouched_shape_unchanged {w : World α} (hs : Sep w) (evs : List (Ev α)) (j : Nat)
+    (hj : ∀ e ∈ evs, ∀ i effs, e = Ev.mutate i effs → i ≠ j) : (run w evs).view j = w.view j :=
+  run_untouched hs evs j hj
+
+/-- non-vacuity: two shapes with two arrays each (addresses 0,1 and 2,3) and one caller array (4) -/
+def exWorld : World Nat := ⟨[(0, [1]), (1, [1]), (2, [5]), (3, [5]), (4, [9])], 5, [[0, 1], [2, 3]], [4]⟩
+
+theorem exWorld_sep : Sep exWorld := by
+  constructor
+  · intro i j fi fj hi hj hne a ha hb
+    match i, j with
+    | 0, 0 => exact hne rfl
+    | 1, 1 => exact hne rfl
+    | 0, 1 =>
+      have e1 : fi = [0, 1] := by simpa [exWorld] using hi.symm
+      have e2 : fj = [2, 3] := by simpa [exWorld] using hj.symm
+      subst e1; subst e2
+      simp only [List.mem_cons, List.not_mem_nil, or_false] at ha hb
+      omega
+    | 1, 0 =>
+      have e1 : fi = [2, 3] := by simpa [exWorld] using hi.symm
+      have e2 : fj = [0, 1] := by simpa [exWorld] using hj.symm
+      subst e1; subst e2
+      simp only [List.mem_cons, List.not_mem_nil, or_false] at ha hb
+      omega
+    | 0, j + 2 => simp [exWorld] at hj
+    | 1, j + 2 => simp [exWorld] at hj
+    | i + 2, _ => simp [exWorld] at hi
+  · intro i fi hi a ha hc
+    have hc' : a = 4 := by simpa [exWorld] using hc
+    match i with
+    | 0 =>
+      have e1 : fi = [0, 1] := by simpa [exWorld] using hi.symm
+      subst e1
+      simp only [List.mem_cons, List.not_mem_nil, or_false] at ha
+      omega
+    | 1 =>
+      have e1 : fi = [2, 3] := by simpa [exWorld] using hi.symm
+      subst e1
+      simp only [List.mem_cons, List.not_mem_nil, or_false] at ha
+      omega
+    | i + 2 => simp [exWorld] at hi
+  · intro i fi hi a ha
+    show a < 5
+    match i with
+    | 0 =>
+      have e1 : fi = [0, 1] := by simpa [exWorld] using hi.symm
+      subst e1
+      simp only [List.mem_cons, List.not_mem_nil, or_false] at ha
+      omega
+    | 1 =>
+      have e1 : fi = [2, 3] := by simpa [exWorld] using hi.symm
+      subst e1
+      simp only [List.mem_cons, List.not_mem_nil, or_false] at ha
+      omega
+    | i + 2 => simp [exWorld] at hi
+  · intro a ha
+    have : a = 4 := by simpa [exWorld] using ha
+    show a < 5
+    omega
+
+/-- a `Polyhedron.centroid.setter`-like mutator of shape 0 (in place, re-bind) leaves shape 1 and
+the caller's array alone -/
+example : (exWorld.step 0 [.inplace [2], .rebind [2]]).view 1 = exWorld.view 1 ∧
+    C16.Heap.get (exWorld.step 0 [.inplace [2], .rebind [2]]).heap 4 = [9] :=
+  ⟨((setter_isolated exWorld_sep 0 _).1 1 (by decide)).2,
+   (setter_isolated exWorld_sep 0 _).2.2 4 (by simp [exWorld])⟩
+
+end heap
